@@ -1,11 +1,11 @@
 ---------------------------- MODULE FileSet_Gen ----------------------------
 (* TLC as case generator for C18: writes the exhaustive case spaces as ndjson. *)
-EXTENDS FileSet, TLC, Json
+EXTENDS FileSet, TLC, Json, FiniteSetsExt
 CONSTANTS EntryDepth, QueryDepth, SetSize, CompDepth, CompQuery,
           Names, MaxBudget, HistLen
 
 Queries(d) == Paths(d) \cup {EMPTYQ}
-Sets == { S \in SUBSET Entries(EntryDepth) : Cardinality(S) <= SetSize }
+Sets == UNION { kSubset(k, Entries(EntryDepth)) : k \in 0..SetSize }     \* (not SUBSET: 2^44 candidates at depth 3)
 
 \* single FileSet: every (set, query)
 SetCases == { [set |-> SetToSeq(S), q |-> q] : S \in Sets, q \in Queries(QueryDepth) }
